@@ -60,6 +60,7 @@ func (f *fakeServer) Subscribe(stream pb.GNMI_SubscribeServer) error {
 	target := req.GetSubscribe().GetPrefix().GetTarget()
 	f.mu.Lock()
 	if rs, ok := f.custom[target]; ok {
+		f.opens[target]++
 		f.mu.Unlock()
 		for _, r := range rs {
 			if err := stream.Send(r); err != nil {
